@@ -41,7 +41,7 @@ fn layout(b: &[u8]) -> Option<Layout> {
     let mut p = xref + 4;
     while b[p] == b'\n' || b[p] == b'\r' || b[p] == b' ' { p += 1; }
     let header_line = p;
-    let line_end = find_from(b, b"\n", p)?;
+    let line_end = (p..b.len()).find(|i| b[*i] == b'\n' || b[*i] == b'\r')?;
     let hdr = std::str::from_utf8(&b[p..line_end]).ok()?.trim().to_string();
     let mut it = hdr.split_whitespace();
     let first: u32 = it.next()?.parse().ok()?;
@@ -98,11 +98,11 @@ fn damage(bytes: &mut Vec<u8>, op: &Value) -> bool {
         }
         "delete_table" => {
             for i in l.xref..l.trailer_kw {
-                if bytes[i] != b'\n' { bytes[i] = b' '; }
+                if bytes[i] != b'\n' && bytes[i] != b'\r' { bytes[i] = b' '; }
             }
         }
         "bad_subsection_header" => {
-            let end = find_from(bytes, b"\n", l.header_line).unwrap();
+            let end = (l.header_line..bytes.len()).find(|i| bytes[*i] == b'\n' || bytes[*i] == b'\r').unwrap();
             // A count that is too large is only unambiguous damage when the table has one subsection: the library
             // documents a flexible entry syntax ("17 0 n", "17 0") for sloppy producers, under which the header line
             // of a following subsection reads as one more entry.
@@ -146,11 +146,11 @@ fn damage(bytes: &mut Vec<u8>, op: &Value) -> bool {
 
 fn damage_blind(bytes: &mut Vec<u8>, op: &Value) -> bool {
     // the file's own pointers are gone; find the table by its keyword at a line start
-    let xref = match rfind(bytes, b"\nxref") { Some(p) => p + 1, None => return false };
+    let xref = match rfind(bytes, b"\nxref").or_else(|| rfind(bytes, b"\rxref")) { Some(p) => p + 1, None => return false };
     let trailer_kw = find_from(bytes, b"trailer", xref).unwrap_or(bytes.len());
     match op["op"].as_str().unwrap() {
         "delete_table" => {
-            for i in xref..trailer_kw { if bytes[i] != b'\n' { bytes[i] = b' '; } }
+            for i in xref..trailer_kw { if bytes[i] != b'\n' && bytes[i] != b'\r' { bytes[i] = b' '; } }
             true
         }
         "truncate_trailer" => {
